@@ -4,8 +4,16 @@ from pyvc.values import SV, Env, PyRaise, ExcVal, Unsupported
 
 
 class ElemV:
-    def __init__(self, keyword, value):
-        self.keyword, self.value = keyword, value
+    def __init__(self, keyword, value, parent=None):
+        self.keyword, self.value, self.parent = keyword, value, parent
+
+    def sym_setattr(self, I, name, val):
+        if name == "value" and self.parent is not None:
+            self.value = val
+            self.parent.elems = [(k, (val if k == self.keyword else v)) for k, v in self.parent.elems]
+            return None
+        from pyvc.values import Unsupported
+        raise Unsupported(f"assignment to DataElement.{name}")
 
     def truth(self, I):
         return True           # pydicom DataElement defines neither __bool__ nor __len__
@@ -16,7 +24,7 @@ class ElemV:
         if name == "value":
             return self.value
         if name == "VM":
-            return 1
+            return len(self.value) if isinstance(self.value, (list, tuple)) else 1
         if name == "tag":
             return ("tag", self.keyword)
         return NotImplemented
@@ -38,7 +46,7 @@ class DatasetV:
         return any(k == item for k, _ in self.elems)
 
     def sym_iter(self, I):
-        return [ElemV(k, v) for k, v in self.elems]
+        return [ElemV(k, v, self) for k, v in self.elems]
 
     def sym_getattr(self, I, name):
         for k, v in self.elems:
